@@ -227,17 +227,29 @@ func fwdInfo(c Case, perm []int) (fwdArgs, fwdAny bool, fwd []int) {
 
 var modes = []string{"repl", "crepl", "eval", "compile", "cstring", "evalfn", "premain", "load"}
 
+// Case list layout: the probes, the deterministic reeval block (inventory,
+// every template alone, every ordered pair of templates), then seeded cases:
+// programs and reeval compositions alternate.
 func nCases(tier string) int {
 	if tier == "thorough" {
-		return 24000
+		return len(probes) + reevalBlock() + 48000
 	}
-	return 2000
+	return len(probes) + reevalBlock() + 4000
 }
 
 func genC(r *rand.Rand, i int, tier string) Case {
 	if i < len(probes) {
 		return probes[i]
 	}
+	i -= len(probes)
+	if i < reevalBlock() {
+		return reevalDet(i)
+	}
+	i -= reevalBlock()
+	if i%2 == 1 {
+		return reevalRand(r)
+	}
+	i /= 2
 	noargs := i%6 == 0
 	multi := i%2 == 1
 	return genCase(r, noargs, multi)
@@ -319,6 +331,10 @@ type failure struct {
 }
 
 func exec(x *fw.Ctx, c Case) {
+	if strings.HasPrefix(c.Kind, "reeval") {
+		execReeval(x, c)
+		return
+	}
 	n := len(c.Fns)
 	mainNode := ref.MustParse(c.Main)[0]
 	x.Cover("kind:" + c.Kind)
@@ -750,7 +766,7 @@ func init() {
 		Gen:   genC,
 		Exec:  exec,
 		Init:  initWorker,
-		Batch: 50,
+		Batch: 100,
 		Assumptions: []string{
 			"the reference evaluator (internal/c08/ref, no slip import) implements the CL meaning of the generated subset",
 			"treatments are isolated by fresh function and variable names per treatment",
